@@ -38,7 +38,7 @@ const NSLOTS: usize = 4;
 const NPIPES: usize = 2;
 const NNAMES: u64 = 6;
 const PIPE_SOFT: usize = 4096;
-const WATCHDOG: Duration = Duration::from_secs(20);
+const WATCHDOG: Duration = Duration::from_secs(8);
 
 // ---------------------------------------------------------------------------
 // cases
@@ -939,9 +939,17 @@ fn compio_run(ops: &[Op], mode: Mode) -> Result<Rec, Option<String>> {
         let r = std::panic::catch_unwind(std::panic::AssertUnwindSafe(|| {
             let mut pb = ProactorBuilder::new();
             pb.driver_type(if mode == Mode::Poll { DriverType::Poll } else { DriverType::IoUring });
+            let t0 = std::time::Instant::now();
             let rt = RuntimeBuilder::new().with_proactor(pb).build().expect("runtime");
             assert!(rt.driver_type() == if mode == Mode::Poll { DriverType::Poll } else { DriverType::IoUring });
-            rt.block_on(run_compio(&ops2, &dir2))
+            let t1 = t0.elapsed();
+            let r = rt.block_on(run_compio(&ops2, &dir2));
+            let t2 = t0.elapsed();
+            drop(rt);
+            if std::env::var("C08_TIMES").is_ok() {
+                eprintln!("build {:?} run {:?} drop {:?}", t1, t2 - t1, t0.elapsed() - t2);
+            }
+            r
         }));
         let _ = tx.send(r.map_err(|p| {
             if let Some(s) = p.downcast_ref::<&str>() { s.to_string() }
